@@ -87,6 +87,9 @@ func derivesFrom(v ssa.Value, pred func(ssa.Value) bool) bool {
 		case *ssa.Extract:
 			return walk(x.Tuple, d+1)
 		case *ssa.Call:
+			if x.Common().IsInvoke() && walk(x.Common().Value, d+1) {
+				return true
+			}
 			for _, a := range x.Common().Args {
 				if walk(a, d+1) {
 					return true
